@@ -9,7 +9,7 @@ from .common import ScriptedApp, build_request, token_body
 PROPERTY = "C18"
 LEVEL = "exploration"
 BUDGET = {"quick": 30, "thorough": 600}
-BEHAV = ["idle", "partial", "request", "request_stall", "two_requests", "request_then_partial", "fin_later"]
+BEHAV = ["idle", "partial", "request", "request_stall", "two_requests", "request_then_partial", "fin_later", "slow_reader"]
 EVIDENCE = {
     "rule": "event histories under the simulated clock: up to connection_limit+3 connections started at seeded times, each "
             "with a behaviour from " + ", ".join(BEHAV) + " (applications sleep 0 / 0.5x / 2x / 5x channel_timeout; stalled "
@@ -46,6 +46,7 @@ def gen(W):
         b["gap"] = W.choice([0.3 * T, 0.9 * T, 1.6 * T])
         b["listener"] = W.draw(sc["listeners"])
         b["resp"] = W.choice([20, 3000])
+        b["drain_every"] = W.choice([0.2 * T, 0.45 * T, 0.8 * T])
         conns.append(b)
     sc["conns"] = conns
     sc["sched"] = {"kind": W.choice(["rtb", "walk"], p0=0.7), "gap_mean": 40}
@@ -62,6 +63,8 @@ def run_one(tapes, tier, scenario=None):
     net = NetConfig(sendbuf_len=8192, sndbuf_cap=sc["sndbuf_cap"])
     last_start = max(b["start"] for b in sc["conns"])
     horizon = last_start + 2 * max(b["gap"] for b in sc["conns"]) + 2 * max(b["app_sleep"] for b in sc["conns"]) + 3 * (T + C + L) + 10
+    if any(b["kind"] == "slow_reader" for b in sc["conns"]):
+        horizon += 14 * T
     sim = Simulation(tapes, knobs=knobs, net=net, sched=sc["sched"], n_listeners=sc["listeners"],
                      horizon=horizon, stop_at_idle=False, step_cap=400000)
     k = sim.k
@@ -70,7 +73,7 @@ def run_one(tapes, tier, scenario=None):
     plans = {}
     for cid, b in enumerate(sc["conns"]):
         kind = b["kind"]
-        body = token_body(cid, 0, b["resp"])
+        body = token_body(cid, 0, b["resp"] if kind != "slow_reader" else 12 * max(40, sc["sndbuf_cap"] // 2))
         sleeps = {"call": b["app_sleep"]} if b["app_sleep"] else {}
         scripts["/c%d/a" % cid] = {"chunks": [body], "cl": len(body), "sleeps": sleeps, "kind": "gen" if sleeps else "list"}
         scripts["/c%d/b" % cid] = {"chunks": [b"second"], "cl": 6}
@@ -85,6 +88,9 @@ def run_one(tapes, tier, scenario=None):
             steps = [("send", r1)]
         elif kind == "request_stall":
             steps = [("mode", "stalled"), ("send", r1)]
+        elif kind == "slow_reader":
+            # a client that keeps reading, slowly but steadily, for several channel_timeouts
+            steps = [("mode", "slow", max(40, sc["sndbuf_cap"] // 2), b.get("drain_every", 0.45 * T)), ("send", r1)]
         elif kind == "two_requests":
             steps = [("send", r1), ("sleep", b["gap"]), ("send", r2)]
         elif kind == "request_then_partial":
@@ -152,7 +158,7 @@ def run_one(tapes, tier, scenario=None):
         req_ends = []  # stream offsets of complete requests sent by this client
         kind = b["kind"]
         p = plans[cid]
-        if kind in ("request", "request_stall", "two_requests", "request_then_partial", "fin_later"):
+        if kind in ("request", "request_stall", "two_requests", "request_then_partial", "fin_later", "slow_reader"):
             req_ends.append(len(p["r1"]))
         if kind == "two_requests":
             req_ends.append(len(p["r1"]) + len(p["r2"]))
@@ -185,6 +191,14 @@ def run_one(tapes, tier, scenario=None):
                     res.v("reaped_while_busy", kind, "conn %d closed by the server at t=%.3f while its request was in progress (%.3f .. %r); app_sleep=%s timeout=%s" % (
                         cid, close_t - t0, frm - t0, None if to is None else round(to - t0, 3), b["app_sleep"], T))
                     break
+        # not idle long enough: closed although data was moving less than channel_timeout ago and the response is incomplete
+        if close_t is not None and fin_seen is None and kind != "fin_later":
+            before = [t_ for t_ in act if t_ <= close_t]
+            rs_, probs_ = parse_stream(s.wire, ["GET", "GET"], True)
+            incomplete = any(not r.complete for r in rs_ if not r.interim) or bool(probs_)
+            if before and (close_t - max(before)) < T - 0.001 and incomplete:
+                res.v("reaped_while_active", kind, "conn %d closed by the server at t=%.3f, only %.3f s after its last activity (channel_timeout %s), with the response incomplete (%d bytes on the wire)" % (
+                    cid, close_t - t0, close_t - max(before), T, len(s.wire)))
         # idle reaping
         still_busy = any(to is None for frm, to in busy)
         if not still_busy:
